@@ -228,11 +228,72 @@ func suitePair(c *ctx) {
 			os, ns = old.scriptGrouped(), nw.scriptGrouped()
 			c.count("route_grouped")
 		}
+		// a side written as a history: a column first created with another definition, then MODIFY COLUMN to the final
+		// one (MySQL: the only dialect whose reader understands MODIFY COLUMN)
+		if dialect == "mysql" && c.rng.Intn(3) == 0 {
+			os = withModifyDetour(c, g, os)
+			c.count("route_modify_detour_old")
+		}
+		if dialect == "mysql" && c.rng.Intn(3) == 0 {
+			ns = withModifyDetour(c, g, ns)
+			c.count("route_modify_detour_new")
+		}
 		runPair(c, fmt.Sprintf("p%d", i), cfg, os, ns, style)
 		if i%3 == 0 {
 			runRoutes(c, fmt.Sprintf("rt%d", i), cfg, old)
 		}
 	}
+}
+
+// withModifyDetour rewrites one non-key column of one CREATE TABLE to a variant definition (other options: comment,
+// default, nullability) and appends ALTER TABLE … MODIFY COLUMN with the original definition: the same final schema,
+// reached in two steps.
+func withModifyDetour(c *ctx, g *gen, ss []Stmt) []Stmt {
+	out := append([]Stmt{}, ss...)
+	var cand [][2]int
+	for i, s := range out {
+		if s.Kind != "createTable" {
+			continue
+		}
+		for j, col := range s.Cols {
+			key := false
+			for _, o := range col.Opts {
+				if o.Kind == "pk" || o.Kind == "autoinc" {
+					key = true
+				}
+			}
+			for _, pk := range s.Pk {
+				if pk == col.Name {
+					key = true
+				}
+			}
+			if !key {
+				cand = append(cand, [2]int{i, j})
+			}
+		}
+	}
+	if len(cand) == 0 {
+		return out
+	}
+	pick := cand[c.rng.Intn(len(cand))]
+	st := out[pick[0]]
+	final := st.Cols[pick[1]]
+	cols := append([]ColDef{}, st.Cols...)
+	variant := ColDef{Name: final.Name, Typ: final.Typ}
+	switch c.rng.Intn(3) {
+	case 0:
+		variant.Opts = []Opt{{Kind: "comment", Val: "draft"}}
+	case 1:
+		variant.Opts = g.opts(final.Typ)
+	default:
+		// same definition: MODIFY COLUMN to itself
+		variant.Opts = append([]Opt{}, final.Opts...)
+	}
+	cols[pick[1]] = variant
+	st.Cols = cols
+	out[pick[0]] = st
+	out = append(out, Stmt{Kind: "modifyColumn", T: st.T, Col: final})
+	return out
 }
 
 // style0 is the canonical (non-random) spelling of a style, so that auxiliary loads do not consume PRNG state
